@@ -307,6 +307,8 @@ def compare(ip, op, a, b, st, node=None):
             if isinstance(y, Const) and y.value is None:
                 if isinstance(x, (Obj, FuncV, ClassV, ModV, TupleV, BytesV, Sym)):
                     return [(not pos, st)]
+                if isinstance(x, Opaque) and x.kind in ('str', 'bytes', 'int', 'bool'):
+                    return [(not pos, st)]       # the result of str() / a packed value is never None
                 if isinstance(x, Const):
                     return [((x.value is None) == pos, st)]
         if isinstance(a, Obj) and isinstance(b, Obj):
@@ -1073,7 +1075,15 @@ def _p_b2a_hex(ip, args, kwargs, st, line, node):
     return [('val', Opaque('b2a_hex(%s)' % ', '.join(a.desc() for a in args), 'bytes'), st)]
 
 
+def _p_divmod(ip, args, kwargs, st, line, node):
+    if len(args) != 2:
+        return [('val', Opaque('divmod(?)'), st)]
+    a, b = args
+    return [('val', TupleV([binop(ip, ast.FloorDiv(), a, b, st, node), binop(ip, ast.Mod(), a, b, st, node)]), st)]
+
+
 _EXT = {
+    'divmod': _p_divmod,
     'len': _p_len, 'struct.unpack': _p_struct_unpack, 'struct.pack': _p_struct_pack,
     'min': _p_minmax(min), 'max': _p_minmax(max), 'int': _p_int, 'ord': _p_ord,
     'str': _p_simple('str', 'str'), 'repr': _p_simple('repr', 'str'), 'bool': _p_simple('bool'),
